@@ -78,7 +78,7 @@ macro "run_simp" "[" ls:simpLemma,* "]" : tactic =>
 
 /-- `_finalize_message` of an in-sequence frame outside a resend -/
 theorem finalize_closed {env : Env} {c : Conn} {f : Msg} {v : String} {j : Journal}
-    (hst : c.state ≠ st_RESENDREQ_AWAITING) (hty : f.mtype ≠ mSequenceReset)
+    (hst : c.state ≠ st_RESENDREQ_AWAITING) (hconn : 3 < c.state) (hty : f.mtype ≠ mSequenceReset)
     (h34 : f.get? tMsgSeqNum = some v) (hv : pyInt v = some c.sess.nextIn) (hpos : 0 < c.sess.nextIn)
     (hj : c.journal.persist .inbound c.sess.nextIn f = some j) :
     finalizeMessage env f c =
@@ -86,7 +86,7 @@ theorem finalize_closed {env : Env} {c : Conn} {f : Msg} {v : String} {j : Journ
   have h1 : ¬ c.sess.nextIn ≤ 0 := by omega
   have h2 : ¬ c.state = 12 := hst
   have h3 : ¬ f.mtype = "4" := hty
-  run_simp [finalizeMessage, setNextNumIn, persistInbound, has_of_get? h34, get_of_get? h34, hv, h1, h2, h3, h34, hj]
+  run_simp [finalizeMessage, setNextNumIn, persistInbound, has_of_get? h34, get_of_get? h34, hv, h1, h2, h3, h34, hj, hconn]
 
 /-- `_process_message` up to the dispatch, ACTIVE connection, in-sequence frame that is neither Logon,
 SequenceReset nor Logout -/
@@ -129,7 +129,7 @@ theorem recv_app {sr : Msg → Bool} {env : Env} {c : Conn} {f : Msg} {v : Strin
     have a4 : ¬ f.mtype = "1" := t4
     have a5 : ¬ f.mtype = "0" := t5
     run_simp [processDispatch, a1, a2, a3, a4, a5]
-  have hf := finalize_closed (env := env) (by rw [hst]; decide) t2 ha.s34 ha.int hpos hj
+  have hf := finalize_closed (env := env) (by rw [hst]; decide) (by rw [hst]; decide) t2 ha.s34 ha.int hpos hj
   simpa using recv_active ha hst t3 t2 t6 hd hf
 
 /-- R2a: a Heartbeat while no TestRequest is outstanding -/
@@ -142,7 +142,7 @@ theorem recv_hb_idle {sr : Msg → Bool} {env : Env} {c : Conn} {f : Msg} {v : S
   have hd : processDispatch env sr f true c.sess.nextIn c = ⟨.ok (), c, []⟩ := by
     have a : f.mtype = "0" := hty
     run_simp [processDispatch, processHeartbeat, a, hreq]
-  have hf := finalize_closed (env := env) (by rw [hst]; decide) (by rw [hty]; decide) ha.s34 ha.int hpos hj
+  have hf := finalize_closed (env := env) (by rw [hst]; decide) (by rw [hst]; decide) (by rw [hty]; decide) ha.s34 ha.int hpos hj
   simpa using recv_active ha hst (by rw [hty]; decide) (by rw [hty]; decide) (by rw [hty]; decide) hd hf
 
 /-- R2b: the Heartbeat that answers the outstanding TestRequest clears it -/
@@ -157,7 +157,7 @@ theorem recv_hb_answer {sr : Msg → Bool} {env : Env} {c : Conn} {f : Msg} {v w
     have a : f.mtype = "0" := hty
     run_simp [processDispatch, processHeartbeat, a, hreq, h112, hw]
   have hf := finalize_closed (env := env) (c := { c with testReqId := none }) (by simp [hst]; decide)
-    (by rw [hty]; decide) ha.s34 ha.int hpos hj
+    (by simp [hst]; decide) (by rw [hty]; decide) ha.s34 ha.int hpos hj
   simpa using recv_active ha hst (by rw [hty]; decide) (by rw [hty]; decide) (by rw [hty]; decide) hd hf
 
 /-- the Heartbeat `_process_testrequest` answers with -/
@@ -185,7 +185,7 @@ theorem recv_testreq {sr : Msg → Bool} {env : Env} {c : Conn} {f : Msg} {v : S
     run_simp [processDispatch, processTestRequest, a, hs']
   have hf := finalize_closed (env := env)
     (c := { c with sess := { c.sess with nextOut := c.sess.nextOut + 1 }, journal := j1 }) (by simp [hst]; decide)
-    (by rw [hty]; decide) ha.s34 ha.int hpos hj2
+    (by simp [hst]; decide) (by rw [hty]; decide) ha.s34 ha.int hpos hj2
   simpa using recv_active ha hst (by rw [hty]; decide) (by rw [hty]; decide) (by rw [hty]; decide) hd hf
 
 end AsyncFix.Tester
